@@ -56,17 +56,38 @@ func (w *Worker) buildCex(s *State, label, neg, note string) *Cex {
 	}
 	shaped := false
 	var vals map[string]string
-	if len(nows) > 0 {
+	{
 		var shape []string
-		for _, n := range nows[1:] {
-			shape = append(shape, tEq(n, nows[0]))
+		if len(nows) > 0 {
+			for _, n := range nows[1:] {
+				shape = append(shape, tEq(n, nows[0]))
+			}
+			for _, t := range times {
+				shape = append(shape, "(or (= "+t+" "+zeroTime+") (>= (- "+t+" "+nows[0]+") 10000000000) (>= (- "+nows[0]+" "+t+") 10000000000))")
+			}
 		}
-		for _, t := range times {
-			shape = append(shape, "(or (= "+t+" "+zeroTime+") (= "+t+" "+nows[0]+") (>= (- "+t+" "+nows[0]+") 10000000000) (>= (- "+nows[0]+" "+t+") 10000000000))")
+		// durations: zero or at least 10 s, so that the real clock's progress during the replay does not matter
+		for _, n := range s.Nondet {
+			if n.Kind == "dur" && len(nows) > 0 {
+				shape = append(shape, "(or (= "+n.Term+" 0) (>= "+n.Term+" 10000000000) (<= "+n.Term+" (- 10000000000)))")
+			}
 		}
-		r, v := w.S.Check(s.Decls, s.PC, append([]string{neg}, shape...), terms)
-		if r == "sat" {
-			vals, shaped = v, true
+		// prefer small integers (no reliance on wrap-around) when such a model exists
+		var small []string
+		for _, n := range s.Nondet {
+			if n.Kind == "int" {
+				small = append(small, "(and (<= (- 1099511627776) "+n.Term+") (<= "+n.Term+" 1099511627776))")
+			}
+		}
+		for _, tier := range [][]string{append(append([]string{neg}, shape...), small...), append([]string{neg}, shape...)} {
+			if len(tier) == 1 {
+				continue
+			}
+			r, v := w.S.Check(s.Decls, s.PC, tier, terms)
+			if r == "sat" {
+				vals, shaped = v, len(shape) > 0 || len(nows) == 0
+				break
+			}
 		}
 	}
 	if vals == nil {
@@ -83,7 +104,7 @@ func (w *Worker) buildCex(s *State, label, neg, note string) *Cex {
 	decode := func(term, kind string) interface{} {
 		raw := vals[term]
 		switch kind {
-		case "int", "now":
+		case "int", "now", "dur":
 			if n, ok := parseSMTInt(raw); ok {
 				return n
 			}
